@@ -33,6 +33,8 @@ pub fn class_scalar(class: &str, rng: &mut StdRng) -> Scalar {
         "two128" => Scalar::from_raw([0, 0, 1, 0]),
         "neg_small" => -Scalar::from(7u64),
         "neg_two63" => -Scalar::from(1u64 << 63),
+        // a short value with only the TOP byte of the encoding set as well: 5 + 5 * 2^248
+        "top_byte" => { let mut b = [0u8; 32]; b[0] = 5; b[31] = 5; Scalar::from_bytes(&b).unwrap() }
         _ => Scalar::random(&mut *rng),
     }
 }
@@ -87,7 +89,8 @@ fn message_classes(n: usize) -> Vec<Vec<&'static str>> {
     for w in ["two63", "two64m1", "neg_small"] {
         v.push(vec![w; n]);
     }
-    let words = ["two63p1", "two64", "two128", "neg_two63", "two63", "two64m1", "neg_small"];
+    v.push(vec!["top_byte"; n]);
+    let words = ["two63p1", "two64", "two128", "neg_two63", "top_byte", "two63", "two64m1", "neg_small"];
     let mut a = vec!["random"; n];
     for i in 0..n { if i % 2 == 0 { a[i] = words[(i / 2) % words.len()]; } }
     v.push(a);
@@ -201,8 +204,16 @@ fn psig_n<const N: usize>(rng: &mut StdRng, thorough: bool, out: &mut Vec<Value>
             }
             let msg = Message::<N>::new(mv);
             let res = catch_unwind(AssertUnwindSafe(|| {
-                let mut obj = SigObj::Plain(msg.sign(&mut seeded(ci as u64 * 31 + mi as u64, 9), &kp));
                 let mut ops = vec![];
+                let mut obj = if (ci + mi) % 3 == 0 {
+                    // signing randomness whose first draws are all-zero bytes (whatever their width): still a valid signature
+                    let mut z = Scripted::new(vec![Draw::Zero; 3], ci as u64 * 31 + mi as u64);
+                    z.scalar_only = false;
+                    ops.push(json!({"op": "sign", "r": "zero", "bf": [0, 0, 0]}));
+                    SigObj::Plain(msg.sign(&mut z, &kp))
+                } else {
+                    SigObj::Plain(msg.sign(&mut seeded(ci as u64 * 31 + mi as u64, 9), &kp))
+                };
                 for &(op, rc, bc) in ch {
                     let mut srng = Scripted::new(vec![class_draw(rc)], 17 + ci as u64);
                     obj = match (op, obj) {
@@ -513,6 +524,18 @@ fn pedersen_n<G: Grp, const N: usize>(rng: &mut StdRng, thorough: bool, out: &mu
                 for k in 0..N { acc2 += gs[k] * mv[k]; }
                 pert.push(json!({"kind": "bf", "verdict": com.verify_opening(&params, bf_of(&r2), &msg), "recomputed_eq": acc2 == acc}));
             }
+            // a coordinate and the blinding factor moved in opposite directions (opens iff g_i = h): for parameters the
+            // library GENERATES this must never open; for the explicit set with g_1 = h it legitimately does
+            let mut combo = vec![];
+            for i in 0..N.min(3) {
+                let mut m2 = mv; m2[i] += Scalar::one();
+                let r2 = r - Scalar::one();
+                let mut acc2 = h * r2;
+                for k in 0..N { acc2 += gs[k] * m2[k]; }
+                combo.push(json!({"kind": "coord+1,bf-1", "idx": i, "verdict": com.verify_opening(&params, bf_of(&r2), &Message::<N>::new(m2)), "recomputed_eq": acc2 == acc}));
+            }
+            let mut distinct = true;
+            for a in 0..N { if gs[a] == h { distinct = false; } for b2 in 0..a { if gs[a] == gs[b2] { distinct = false; } } }
             // homomorphism with a second opening
             let mut m2 = [Scalar::zero(); N];
             for i in 0..N { m2[i] = class_scalar(mc[(i + 1) % N], rng); }
@@ -527,7 +550,7 @@ fn pedersen_n<G: Grp, const N: usize>(rng: &mut StdRng, thorough: bool, out: &mu
             let other_differs = other.to_element() != com.to_element();
             let other_verdict = other.verify_opening(&params, bf_of(&r), &msg);
             out.push(json!({"ev": "pedersen", "group": G::NAME, "N": N, "params": pname, "m": mc, "r": rc, "elem_eq_independent": elem_eq,
-                            "verify_original": verify_orig, "commitment_is_identity": bool::from(acc.is_identity()), "perturbed": pert, "additive": additive,
+                            "verify_original": verify_orig, "commitment_is_identity": bool::from(acc.is_identity()), "perturbed": pert, "combined": combo, "generators_distinct": distinct, "additive": additive,
                             "other": {"differs": other_differs, "verdict": other_verdict}}));
         }
     }
@@ -830,6 +853,22 @@ fn schnorr_n<const N: usize>(rng: &mut StdRng, thorough: bool, out: &mut Vec<Val
                         let (a, b_, c_) = v2.relations(&pkv, &ch.to_scalar());
                         out.push(json!({"ev": "proof", "kind": "sp", "N": N, "case": case, "decoded": true, "verdict": q.verify_knowledge_of_signature(&pk, ch),
                                         "atoms": {"sigma1_not_identity": a, "schnorr": b_, "pairing": c_}}));
+                    }
+                    // the commitment equal to -X~ (message zero, blinding factor -x from the secret key, scripted as the builder's
+                    // first draw) around an unrelated signature: X~ * C is the identity, the pairing relation is false
+                    {
+                        let skx = indep::sc(Tree::of(&kp).bytes_at("sk.x").expect("sk.x")).unwrap();
+                        let mut srng = Scripted::new(vec![Draw::Scalar((-skx).to_bytes())], 7);
+                        let any_sig = Message::<N>::new([Scalar::from(5u64); N]).sign(rng, &okp);
+                        let b = SignatureProofBuilder::<N>::generate_proof_commitments(&mut srng, Message::<N>::new([Scalar::zero(); N]), any_sig, &[None; N], &pk);
+                        let ch = ChallengeBuilder::new().with(&b).finish();
+                        let q = b.generate_proof_response(ch);
+                        let tq = Tree::of(&q);
+                        let v2 = sp_root(&tq).unwrap();
+                        let (a, b_, c_) = v2.relations(&pkv, &ch.to_scalar());
+                        let cancels = indep::g2(&v2.cp.c).map(|c| G2Projective::from(c) + G2Projective::from(pkv.x2) == G2Projective::identity()).unwrap_or(false);
+                        out.push(json!({"ev": "proof", "kind": "sp", "N": N, "case": "commitment_cancels_x2", "decoded": true, "verdict": q.verify_knowledge_of_signature(&pk, ch),
+                                        "atoms": {"sigma1_not_identity": a, "schnorr": b_, "pairing": c_}, "commitment_is_minus_x2": cancels}));
                     }
                     // two errors that would cancel in a FOLDED check: the signature is on m + d*e_0, the commitment on m and
                     // the response of slot 0 is moved by c*d or by d - the Schnorr relation and the pairing relation are each false
@@ -1297,6 +1336,12 @@ pub fn range(seed: u64, thorough: bool) -> Vec<Value> {
         ev["case"] = json!("value 2^63, every digit proof around a small-order sigma1 outside G1");
         ev["well_formed"] = json!(false);
         out.push(ev);
+    }
+    {
+        // the published alphabet is exactly the digits 0 .. u-1 (a signature on any other value is a forgeable digit)
+        let mut n_sigs = 0usize;
+        while rt.span(&format!("digit_signatures.{}", n_sigs)).is_some() { n_sigs += 1; }
+        out.push(json!({"ev": "rangeparams", "case": "exactly 128 digit signatures are published", "expect_ok": true, "validate_ok": n_sigs == 128, "all_signatures_valid_independently": n_sigs == 128}));
     }
     out.push(json!({"ev": "rangeparams", "case": "published sigma1 all distinct", "expect_ok": true, "validate_ok": sigma1_distinct, "all_signatures_valid_independently": sigma1_distinct}));
     // ---- parameter validation: accepts exactly the sets whose i-th signature verifies on digit i
